@@ -120,7 +120,9 @@ func setOf(xs []string) map[string]bool {
 	return m
 }
 
-func isFault(op *Op) bool { return op.CrashAt > 0 || op.CrashHook != "" || len(op.Fail) > 0 }
+func isFault(op *Op) bool {
+	return op.CrashAt > 0 || op.CrashHook != "" || len(op.Fail) > 0 || op.WriteLimit > 0
+}
 func isCrash(op *Op) bool { return op.CrashAt > 0 || op.CrashHook != "" }
 
 // upstream: the labels (function targets, their default label, source labels) a label's evaluation reaches
@@ -434,6 +436,9 @@ func (j *judge) judgeGC(i int, op *Op, p *Proj, o *Obs, prev *Obs) {
 	}
 	if o.Temps != 0 {
 		j.viol("gc-keeps-temps", i, "after gc %d stray temporaries remain", o.Temps)
+	}
+	if len(o.Strays) != 0 {
+		j.viol("gc-keeps-strays", i, "after gc stray entries remain directly under .dawn/build: %v", o.Strays)
 	}
 	if prev != nil && prev.Index != "a" && o.Index == "a" {
 		j.viol("gc-removes-index", i, "gc removed index.json")
@@ -955,6 +960,11 @@ func main() {
 		}
 		hs = append(hs, multiRunHistories(r, np, n3)...)
 		hs = append(hs, replHistories(r)...)
+		ne := 6
+		if *tier == "thorough" {
+			ne = 60
+		}
+		hs = append(hs, editThenDryHistories(r, ne)...)
 		n = len(hs)
 	}
 	if *prop == "C01" {
@@ -965,6 +975,31 @@ func main() {
 			nm = 150
 		}
 		hs = append(hs, multiTargetHistories(r, nm)...)
+		nd := 1
+		if *tier == "thorough" {
+			nd = 10
+		}
+		hs = append(hs, dryThenRealHistories(r, nd)...)
+		hs = append(hs, editReloadHistories(r, 4*nd)...)
+		n = len(hs)
+	}
+	if *prop == "C02" {
+		r := &rng{s: *seed*419 + 23}
+		np := 1
+		if *tier == "thorough" {
+			np = 8
+		}
+		hs = append(hs, reloadHistories(r, np)...)
+		n = len(hs)
+	}
+	if *prop == "C03" {
+		r := &rng{s: *seed*733 + 29}
+		nf, nw := 3, 4
+		if *tier == "thorough" {
+			nf, nw = 40, 40
+		}
+		hs = append(hs, failThenRepairHistories(r, nf)...)
+		hs = append(hs, writeFaultHistories(r, nw)...)
 		n = len(hs)
 	}
 	if *prop == "C14" {
